@@ -1,8 +1,24 @@
 import Jrpc.Backoff
+import JrpcProofs.Lemmas.Redial
+import JrpcProofs.Lemmas.Corr
 /-
   C05 — Reconnecting clients heal themselves; retry-tagged calls ride out outages.
-  This file: the backoff clause ("redial attempts are spaced by the configured backoff, never a
-  busy loop").  Model: `Jrpc.Backoff`.
+
+  Property theorems only.
+    * delay arithmetic (`Jrpc.Backoff`): every delay handed to `time.Sleep` lies in [minDelay, maxDelay];
+    * the redial goroutine (`Jrpc.Redial`, timed): every dial is at least `minDelay` after the start of
+      its redial goroutine or after the previous dial; at most `T / minDelay` dials in any run of
+      duration `T` (never a busy loop); a client without a dial factory never dials; after a
+      successful redial the goroutine is back in the state of a fresh connection and can heal again;
+    * the connection bookkeeping (`Jrpc.Corr`): while the redial runs nothing is registered, requests
+      fail fast; after the swap the error flag is clear and the next request is registered and written;
+    * the method-level retry loop (`Jrpc.Redial.retryLoop`): a retry-tagged call never returns the
+      temporary connection error, re-sends only after one, and returns the first other outcome; an
+      untagged call returns its first outcome (the connection error surfaces, typed when the client
+      maps errors: `C11.connection_error_typed`).
+  PARTIAL: "eventually returns a genuine result" is `C05_retry_returns` — the loop returns as soon as one
+  attempt is answered — plus enabledness of the next attempt on a healed connection; that an outage
+  ends and the scheduler runs the caller are assumptions.
 -/
 namespace Jrpc.C05
 open Jrpc
@@ -98,5 +114,206 @@ example : ({ minDelay := 100000000, maxDelay := 5000000000 } : Backoff).next (so
   decide
 example : ({ minDelay := 100000000, maxDelay := 5000000000 } : Backoff).next (some 2) 1 2 = 275000000 := by
   decide
+
+/-! ### The redial goroutine -/
+open Jrpc.Redial in
+/-- C05_dial_spaced: in every run of the redial model, every dial happens at least `minDelay` after the
+    later of (the start of its redial goroutine, the previous dial) — the chain also says that marks
+    are ordered, so consecutive dials are `minDelay` apart. -/
+theorem C05_dial_spaced (c : Redial.Cfg) (es : List Redial.Ev) (s : Redial.St)
+    (hr : Redial.run? c {} es = some s) :
+    Redial.Chained c.minDelay s.dials ∧ ∀ p ∈ s.dials, p.1 + c.minDelay ≤ p.2 := by
+  have h := Redial.run_rinv c es {} s (Redial.rinv_init c) hr
+  refine ⟨h.chained, ?_⟩
+  have : ∀ (l : List (Nat × Nat)), Redial.Chained c.minDelay l → ∀ p ∈ l, p.1 + c.minDelay ≤ p.2 := by
+    intro l
+    induction l with
+    | nil => intro _ p hp; simp at hp
+    | cons a rest ih =>
+      intro hc p hp
+      cases rest with
+      | nil =>
+        simp at hp; subst hp; simpa [Redial.Chained] using hc
+      | cons b rest' =>
+        obtain ⟨h1, _, h3⟩ := hc
+        rcases List.mem_cons.mp hp with rfl | hp'
+        · exact h1
+        · exact ih h3 p hp'
+  exact this s.dials h.chained
+
+/-- C05_no_busy_loop: a run that has lasted `now` time units contains at most `now / minDelay` dials. -/
+theorem C05_no_busy_loop (c : Redial.Cfg) (es : List Redial.Ev) (s : Redial.St)
+    (hr : Redial.run? c {} es = some s) : s.dials.length * c.minDelay ≤ s.now := by
+  have h := Redial.run_rinv c es {} s (Redial.rinv_init c) hr
+  exact Nat.le_trans h.count h.markNow
+
+/-- C05_noredial: a client without a dial factory (`WithNoReconnect`) never dials; a loss ends it. -/
+theorem C05_noredial (c : Redial.Cfg) (es : List Redial.Ev) (s : Redial.St)
+    (hc : c.reconnect = false) (hr : Redial.run? c {} es = some s) :
+    s.dials = [] ∧ (s.pc = .up ∨ s.pc = .exited) := by
+  have h := Redial.run_rinv c es {} s (Redial.rinv_init c) hr
+  exact ⟨(h.noFact hc).2, (h.noFact hc).1⟩
+
+/-- C05_heal: a successful redial puts the goroutine back into the state of a fresh connection (`up`),
+    and from there a later loss starts a new redial cycle: nothing has to be recreated. -/
+theorem C05_heal (c : Redial.Cfg) (s s' : Redial.St) (t : Nat)
+    (hs : Redial.step? c s (.swap t) = some s') :
+    s'.pc = .up ∧ s'.dials = s.dials ∧ s'.gone = s.gone := by
+  unfold Redial.step? at hs
+  split at hs
+  · simp at hs
+  · simp only at hs
+    split at hs
+    · injection hs with hs; subst hs; simp
+    · simp at hs
+
+theorem C05_heals_again (c : Redial.Cfg) (s : Redial.St) (t : Nat)
+    (hup : s.pc = .up) (hg : s.gone = false) (hc : c.reconnect = true) (ht : s.now ≤ t) :
+    ∃ s', Redial.step? c s (.loss t) = some s' ∧ s'.pc = .lost := by
+  refine ⟨{ s with now := t, pc := .lost }, ?_, rfl⟩
+  unfold Redial.step?
+  have : ¬ t < s.now := by omega
+  simp [this, hup, hg, hc, Redial.Ev.time]
+
+/-- Non-vacuity: loss, two failed dials 100 apart, success, a second loss. -/
+example : (Redial.run? ⟨true, 100⟩ {} [.loss 5, .spawn 6, .sleep 0 7, .dial 0 110, .sleep 1 111, .dial 1 300,
+            .swap 301, .loss 400, .spawn 401, .sleep 0 402, .dial 0 502]).map (·.dials)
+          = some [(401, 502), (110, 300), (6, 110)] := by decide
+/-- … and a dial that comes too early, or without its sleep, is not a behaviour of the model. -/
+example : Redial.run? ⟨true, 100⟩ {} [.loss 5, .spawn 6, .sleep 0 7, .dial 0 50] = none := by decide
+example : Redial.run? ⟨true, 100⟩ {} [.loss 5, .spawn 6, .dial 0 500] = none := by decide
+example : Redial.run? ⟨false, 100⟩ {} [.loss 5] = none := by decide
+
+/-! ### The connection bookkeeping around a redial (`Jrpc.Corr`) -/
+
+/-- One step preserves "the redial goroutine is running → `inflight` is empty". -/
+private theorem step_redial_empty (s s' : Corr.St) (e : Corr.Ev) (g : Corr.Inv1 s)
+    (h0 : s.redialing = true → s.inflight = []) (hs : Corr.step? s e = some s') :
+    s'.redialing = true → s'.inflight = [] := by
+  have hswept := g.swept
+  have hdec := g.decidedOk
+  cases e <;> simp only [Corr.step?] at hs
+  all_goals repeat' split at hs
+  all_goals first | (cases hs; done) | skip
+  all_goals cases hs
+  all_goals (try simp only [Bool.or_eq_true, Bool.and_eq_true, Bool.not_eq_true', bne_iff_ne, beq_iff_eq, ne_eq,
+    not_or, not_and, Bool.not_eq_true, decide_eq_true_eq, List.isEmpty_iff, Option.isSome_iff_ne_none] at *)
+  all_goals (try simp only [Corr.put_misc, Corr.erase_misc, Corr.setAtt_inflight, Corr.setAtt_redial] at *)
+  all_goals (try grind [Corr.St.setAtt, Corr.St.putInflight, Corr.St.eraseInflight, Corr.erase_nil])
+
+/-- While the redial goroutine runs, nothing is registered in `inflight`: requests are failed fast
+    (`Inv1.window`: the error flag is set), never written to a dead socket. -/
+theorem C05_outage_registers_nothing (es : List Corr.Ev) (s : Corr.St) (hr : Corr.run? {} es = some s) :
+    s.redialing = true → s.inflight = [] ∧ s.incomingErr = true := by
+  suffices h : ∀ (es : List Corr.Ev) (s0 s : Corr.St), Corr.Inv1 s0 → (s0.redialing = true → s0.inflight = []) →
+      Corr.run? s0 es = some s → (Corr.Inv1 s ∧ (s.redialing = true → s.inflight = [])) by
+    intro hred
+    have := h es {} s Corr.inv1_init (by simp) hr
+    exact ⟨this.2 hred, this.1.window (Or.inl hred)⟩
+  intro es
+  induction es with
+  | nil => intro s0 s g h0 hr; simp [Corr.run?] at hr; subst hr; exact ⟨g, h0⟩
+  | cons e es ih =>
+    intro s0 s g h0 hr
+    simp only [Corr.run?] at hr
+    cases hst : Corr.step? s0 e with
+    | none => simp [hst] at hr
+    | some s1 =>
+      simp [hst] at hr
+      exact ih s1 s (Corr.step_inv1 s0 s1 e g hst) (step_redial_empty s0 s1 e g h0 hst) hr
+
+/-- C05_heal (bookkeeping): the swap clears the error flag and ends the redial; `inflight` is empty at
+    that instant, so the healed connection starts exactly like a fresh one. -/
+theorem C05_heal_clean (es : List Corr.Ev) (s s' : Corr.St) (hr : Corr.run? {} es = some s)
+    (hs : Corr.step? s .swap = some s') :
+    s'.incomingErr = false ∧ s'.redialing = false ∧ s'.inflight = [] ∧ s'.mainPc = s.mainPc := by
+  simp only [Corr.step?] at hs
+  split at hs
+  · rename_i hred
+    cases hs
+    exact ⟨rfl, rfl, (C05_outage_registers_nothing es s hr hred).1, rfl⟩
+  · simp at hs
+
+/-- … and on it the next id-bearing request is not failed fast: the fail-fast decision is disabled while
+    the flag is clear, the registering one is enabled. -/
+theorem C05_healed_accepts (s : Corr.St) (a : Nat) (hpc : s.mainPc = .handling a)
+    (hid : (s.att a).id ≠ .nil) (hd : s.decided = none) (herr : s.incomingErr = false) :
+    Corr.step? s (.errCheck a true) = none ∧ (Corr.step? s (.errCheck a false)).isSome = true := by
+  simp [Corr.step?, hpc, hd, herr, hid]
+
+/-! ### The method-level retry loop -/
+
+/-- C05_retry_safe: a retry-tagged call never returns the temporary connection error. -/
+theorem C05_retry_safe (outs : List Redial.Attempt) (a : Redial.Attempt) (n : Nat)
+    (h : Redial.retryLoop true outs = some (a, n)) : a ≠ .connErr := by
+  induction outs generalizing n with
+  | nil => simp [Redial.retryLoop] at h
+  | cons o rest ih =>
+    cases o with
+    | connErr =>
+      simp only [Redial.retryLoop, if_true] at h
+      cases hr : Redial.retryLoop true rest with
+      | none => simp [hr] at h
+      | some p =>
+        simp [hr] at h
+        exact ih p.2 (by rw [hr]; congr 1; ext <;> simp [h.1])
+    | answer r => simp [Redial.retryLoop] at h; rw [← h.1]; simp
+    | sendErr => simp [Redial.retryLoop] at h; rw [← h.1]; simp
+
+/-- C05_retry_resends_only_after_connErr: the `n` attempts a retry-tagged call made are `n-1` temporary
+    connection errors followed by the outcome it returned. -/
+theorem C05_retry_shape (outs : List Redial.Attempt) (a : Redial.Attempt) (n : Nat)
+    (h : Redial.retryLoop true outs = some (a, n)) :
+    ∃ rest, outs = List.replicate (n - 1) .connErr ++ a :: rest ∧ 0 < n := by
+  induction outs generalizing n with
+  | nil => simp [Redial.retryLoop] at h
+  | cons o rest ih =>
+    cases o with
+    | connErr =>
+      simp only [Redial.retryLoop, if_true] at h
+      cases hr : Redial.retryLoop true rest with
+      | none => simp [hr] at h
+      | some p =>
+        simp [hr] at h
+        obtain ⟨rest', hrest, hpos⟩ := ih p.2 (by rw [hr, ← h.1])
+        refine ⟨rest', ?_, by omega⟩
+        have hn : n - 1 = (p.2 - 1) + 1 := by omega
+        rw [hn, List.replicate_succ, List.cons_append, hrest, ← h.1]
+    | answer r =>
+      simp [Redial.retryLoop] at h
+      exact ⟨rest, by simp [← h.1, ← h.2], by omega⟩
+    | sendErr =>
+      simp [Redial.retryLoop] at h
+      exact ⟨rest, by simp [← h.1, ← h.2], by omega⟩
+
+/-- C05_retry_returns: as soon as one attempt is answered (the outage ended) the retry loop returns. -/
+theorem C05_retry_returns (outs : List Redial.Attempt) (h : ∃ o ∈ outs, o ≠ .connErr) :
+    (Redial.retryLoop true outs).isSome = true := by
+  induction outs with
+  | nil => simp at h
+  | cons o rest ih =>
+    cases o with
+    | connErr =>
+      obtain ⟨x, hx, hne⟩ := h
+      have hx' : x ∈ rest := by
+        rcases List.mem_cons.mp hx with rfl | h'
+        · exact absurd rfl hne
+        · exact h'
+      have := ih ⟨x, hx', hne⟩
+      simp only [Redial.retryLoop, if_true, Option.isSome_map]
+      exact this
+    | answer r => simp [Redial.retryLoop]
+    | sendErr => simp [Redial.retryLoop]
+
+/-- C05_untagged: without the retry tag the first outcome is returned after exactly one attempt — a
+    temporary connection error surfaces (typed as `*RPCConnectionError` when the client maps errors:
+    `C11.connection_error_typed`). -/
+theorem C05_untagged (o : Redial.Attempt) (rest : List Redial.Attempt) :
+    Redial.retryLoop false (o :: rest) = some (o, 1) := by
+  cases o <;> simp [Redial.retryLoop]
+
+/-- Non-vacuity: two outages, then an answer. -/
+example : Redial.retryLoop true [.connErr, .connErr, .answer 7, .connErr] = some (.answer 7, 3) := by decide
+example : Redial.retryLoop false [.connErr, .connErr, .answer 7] = some (.connErr, 1) := by decide
 
 end Jrpc.C05
